@@ -436,6 +436,8 @@ def render_accept(accept):
     parts = []
     for r in accept:
         txt = '%s/%s' % (r['t'], r['s'])
+        # media type names are case-insensitive (RFC 9110 8.3.1)
+        txt = {'upper': txt.upper(), 'title': txt.title()}.get(r.get('case'), txt)
         if r['q'] is not None:
             txt += '%s;%sq=%s' % (r['ws'][0], r['ws'][1], r['q'])
         parts.append(txt)
@@ -1211,7 +1213,7 @@ def _accept(draw):
         q = draw(st.sampled_from(_QS))
         if (s.endswith('+json') or s.endswith('+xml')) and q is not None and float(q) == 0:
             q = '0.3'
-        out.append({'t': t, 's': s, 'q': q,
+        out.append({'t': t, 's': s, 'q': q, 'case': draw(st.sampled_from([None, None, None, None, 'upper', 'title'])),
                     'ws': [draw(st.sampled_from(_WS)), draw(st.sampled_from(_WS)), draw(st.sampled_from(['', ' ', ' ']))]})
     return out
 
